@@ -18,7 +18,7 @@ def run(ctx):
     MARGINS.clear()
     thorough = ctx.tier == "thorough"
     n1 = range(1, 41) if thorough else range(1, 15)
-    n2 = range(2, 13) if thorough else range(2, 8)
+    n2 = range(2, 11) if thorough else range(2, 8)   # thorough 2-D up to 10x10 (11, 12 cost ~10 min of exact Gram evaluation in the interpreted driver)
     ctx.trusted += ["numpy.linalg.matrix_rank / eigvalsh (oracle for rank and pseudo-determinant)", "scipy.sparse (densification)"]
     ctx.assumptions += ["comparison of stencil matrices is exact (integers / exact rationals of the float spacing)",
                         "GMRF sqrtprec for periodic/neumann carries the code's sqrt(eps) regularisation: compared to 1e-6"]
